@@ -1100,6 +1100,38 @@ def rw_paramname(fi, args, spec=None):
     return edits
 
 
+def rw_fnparam(fi, args, spec=None):
+    """R-FNPARAM NAME TYPE: a parameter `NAME: impl FnMut(..) -> ..` (a closure whose arguments include `&mut`, which
+    Verus cannot give a contract) gets the stub type TYPE, and every call `NAME(ARGS)` in the body becomes
+    `NAME.vc_call(ARGS)`; TYPE::vc_call carries the closure's assumed contract (same idea as R-DYNCALL)."""
+    toks = fi.toks
+    it = fi.item
+    name, ty = args[0], args[1]
+    j = it.kw
+    while not is_p(toks[j], '('):
+        j += 1
+    k = match_close(toks, j)
+    edits = []
+    for (a, b) in _split_args(toks, j + 1, k):
+        c = a
+        if is_id(toks[c], 'mut'):
+            c += 1
+        if is_id(toks[c], name) and is_p(toks[c + 1], ':'):
+            if not is_id(toks[c + 2], 'impl'):
+                raise LostAnchor(f'fn {it.name}: R-FNPARAM: parameter {name} is not an `impl Fn..`')
+            edits.append((toks[c + 2].start, toks[b - 1].end, ty, 'R-FNPARAM'))
+    if not edits:
+        raise LostAnchor(f'fn {it.name}: R-FNPARAM: no parameter {name}')
+    ncalls = 0
+    for i in range(it.body_open + 1, it.body_close):
+        if is_id(toks[i], name) and is_p(toks[i + 1], '(') and not is_p(toks[i - 1], '.'):
+            edits.append((toks[i].end, toks[i].end, '.vc_call', 'R-FNPARAM'))
+            ncalls += 1
+    if ncalls == 0:
+        raise LostAnchor(f'fn {it.name}: R-FNPARAM: {name} is never called')
+    return edits
+
+
 def rw_dyncall(fi, args, spec=None):
     """R-DYNCALL: `(RECV)(ARGS)` (call of a `dyn Fn` object stored in a field) -> `RECV.vc_call(ARGS)`; Verus does not
     support `dyn Fn` types, the stub type of the field offers `vc_call` with the closure's assumed contract."""
@@ -1124,6 +1156,7 @@ def rw_dyncall(fi, args, spec=None):
 
 REWRITES = {
     'R-DYNCALL': rw_dyncall,
+    'R-FNPARAM': rw_fnparam,
     'R-PARAMNAME': rw_paramname,
     'R-HOISTEND': rw_hoistend,
     'R-CLOSANN': rw_closann,
